@@ -783,6 +783,9 @@ func panicSite(stack string) string {
 					break
 				}
 			}
+			if k := indexStr(f, kit.RepoPrefix()); k >= 0 {
+				f = f[k+len(kit.RepoPrefix()):] // path relative to the tree: the signature does not depend on where the tree lives
+			}
 			return "panic at " + f + " in " + fn
 		}
 	}
